@@ -167,7 +167,7 @@ def explore_inner(ctx):
     from cvise.passes.peep import PeepPass
     rnd = random.Random(ctx.seed + 12)
     find_cases, search_cases = [], []
-    L = 6 if ctx.quick() else 8
+    L = 6 if ctx.quick() else 7
 
     def do_find(expr, prefix, s, pos, tag, model=True):
         try:
